@@ -165,8 +165,10 @@ PROPS = {
         "assumptions": ["a block's header equality is decided on the real headers; the model computes the scalar header fields itself and is given the Merkle roots of the states involved"],
     },
     "C07": {
-        "modules": ["C07", "C07Chain", "C07Hist", "C07Dense", "C07TxRoot", "PinC07"],
-        "streams": [{"name": "chain", "quick": 90, "thorough": 4000}, {"name": "activation", "quick": 90, "thorough": 3200}, {"name": "merkle", "quick": 40, "thorough": 2400}],
+        "modules": ["C07", "C07Chain", "C07Hist", "C07Dense", "C07TxRoot", "CodecHdr", "PinC07"],
+        "streams": [{"name": "chain", "quick": 90, "thorough": 4000}, {"name": "activation", "quick": 90, "thorough": 3200}, {"name": "merkle", "quick": 40, "thorough": 2400},
+                    # the preimage of the header hash: stdcode::serialize(header) against the model's encodeHeader
+                    {"name": "stdcode", "quick": 300, "thorough": 6000}],
         "projection": "chain",
         "oracles": [],
         "assumptions": ["blake3 collision-freeness enters as the explicit hypotheses `Injective` / `RootsInjective` of the soundness and sensitivity theorems",
